@@ -581,7 +581,7 @@ impl Xot {
     /// using [`Xot::write`] or [`Xot::to_string`].
     pub fn create_missing_prefixes(&mut self, node: Node) -> Result<(), Error> {
         let node = if self.is_document(node) {
-            self.document_element(node).unwrap()
+            self.document_element(node)?
         } else {
             node
         };
@@ -590,11 +590,16 @@ impl Xot {
         };
         let mut fullname_serializer = FullnameSerializer::new(self, vec![]);
         let mut missing_namespace_ids = HashSet::default();
+        // the prefixes that are taken: a new declaration with one of these
+        // would override a binding in scope, or be shadowed further down
+        let mut used_prefix_ids: HashSet<PrefixId> =
+            self.namespaces_in_scope(node).map(|(prefix, _)| prefix).collect();
         for edge in self.traverse(node) {
             match edge {
                 NodeEdge::Start(node) => {
                     let element = self.element(node);
                     if let Some(element) = element {
+                        used_prefix_ids.extend(self.namespaces(node).keys());
                         fullname_serializer.push(self.namespace_declarations(node));
                         let element_fullname =
                             fullname_serializer.element_fullname(element.name_id);
@@ -620,9 +625,15 @@ impl Xot {
             }
         }
         let mut prefixes_to_add = HashMap::default();
-        for (i, namespace_id) in missing_namespace_ids.iter().enumerate() {
-            let prefix = format!("n{}", i);
-            let prefix_id = self.add_prefix(&prefix);
+        let mut i = 0;
+        for namespace_id in missing_namespace_ids.iter() {
+            let prefix_id = loop {
+                let prefix_id = self.add_prefix(&format!("n{}", i));
+                i += 1;
+                if used_prefix_ids.insert(prefix_id) {
+                    break prefix_id;
+                }
+            };
             prefixes_to_add.insert(prefix_id, namespace_id);
         }
         let mut namespaces = self.namespaces_mut(node);
